@@ -54,6 +54,7 @@ type bnode struct {
 	recovered    [][]string
 	lastCCEvents int
 	dead         bool
+	vlogPrev     int64 // size of the value log after the previous acknowledged write (-1: unknown)
 }
 
 type hist struct {
@@ -160,12 +161,49 @@ func (h *hist) wrote(b *bnode, rec wrec) {
 	kill := b.killAt == k
 	snap := kill || b.snapAll || h.rng.Float64() < h.cfg.snapRate ||
 		(h.cfg.blockRate > 0 && (rec.kind == 'F' || (rec.kind == 'B' && h.rng.Float64() < h.cfg.blockRate)))
+	// crash points INSIDE this write: prefixes of the value log that end between the previous write and this one
+	// (see vlogCuts). Only for the store methods that are one Badger transaction on one or three keys.
+	prev, cur := b.vlogPrev, vlogSize(b.dir)
+	b.vlogPrev = cur
+	var cuts []int64
+	if (snap || kill) && prev >= 0 && cur > prev && strings.IndexByte("EBFR", rec.kind) >= 0 {
+		cuts = vlogCuts(b.dir, prev, cur)
+	}
 	if snap {
 		h.midOp++
 		h.snapshot(b, k, kill)
+		if len(cuts) > 0 && (b.snapAll || h.rng.Intn(3) == 0) {
+			// the write is not acknowledged in such an image: recovery must give the state after k-1 writes
+			off := cuts[h.rng.Intn(len(cuts))]
+			if dir, err := os.MkdirTemp(h.tmp, "cut"); err == nil {
+				if err := copyDirCut(b.dir, dir, off); err == nil {
+					h.snapshots++
+					h.snapKinds["inside:"+string(rec.kind)]++
+					h.checkRecovery(b, dir, k-1, "inside-write")
+				}
+				os.RemoveAll(dir)
+			}
+		}
 	}
 	if kill {
 		h.crashMidOp++
+		if len(cuts) > 0 && h.rng.Intn(2) == 0 {
+			// the process dies INSIDE this write: the node continues from a value log that ends at one of the cut
+			// points; the write was never acknowledged, so it leaves the log (CT tells the model)
+			off := cuts[h.rng.Intn(len(cuts))]
+			if cont, err := os.MkdirTemp(h.tmp, "cont"); err == nil {
+				if err := copyDirCut(b.dir, cont, off); err == nil {
+					os.RemoveAll(b.contDir)
+					b.contDir = cont
+					b.log = b.log[:k-1]
+					fmt.Fprintf(h.w.Out, "CT %d\n", b.lin)
+					h.actions["kill-inside-write:"+string(rec.kind)]++
+				} else {
+					os.RemoveAll(cont)
+				}
+			}
+		}
+		b.vlogPrev = -1
 		panic(crashSignal{b.lin})
 	}
 }
@@ -440,7 +478,7 @@ func (h *hist) newBadgerNode(lin, id, self int) *bnode {
 	if err != nil {
 		panic(err)
 	}
-	b := &bnode{lin: lin, self: self, dir: dir, B: B, killAt: -1, fullLeft: h.cfg.fullOps}
+	b := &bnode{lin: lin, self: self, dir: dir, B: B, killAt: -1, fullLeft: h.cfg.fullOps, vlogPrev: -1}
 	cs := &CountStore{Store: B, B: B, h: h, b: b}
 	h.bn = append(h.bn, b)
 	fmt.Fprintf(h.w.Out, "CN %d %d\n", lin, self)
